@@ -571,7 +571,7 @@ def shard_first_use_sweep(task):
 def run(ctx):
     tasks = []
     step = 200
-    ctx.pmap(shard_first_use_sweep, [(first, lo, lo + step, ctx.pick(2, 1)) for first in (0, 1) for lo in range(0, 2400, step)])
+    ctx.pmap(shard_first_use_sweep, [(first, lo, lo + step, 1) for first in (0, 1) for lo in range(0, 2400, step)])
     for kind in KINDS:
         for threads in (2, 3):
             for variant in range(ctx.pick(2, 6)):
